@@ -41,12 +41,13 @@ from . import c10_lexer
 PID = "C10"
 
 # ====================================================================================================
-# token alphabet: one canonical lexeme per token kind (checked against the live lexer at import)
+# token alphabet: one canonical lexeme per token kind (checked against the live lexer at import); the two free-text kinds carry
+# str.format / %-format metacharacters: error messages are built from token contents
 # ====================================================================================================
 CANON = {
-    "ODATA_IDENTIFIER": "a", "INTEGER": "1", "DECIMAL": "1.5", "STRING": "'s'", "BOOLEAN": "true", "NULL": "null",
+    "ODATA_IDENTIFIER": "a", "INTEGER": "1", "DECIMAL": "1.5", "STRING": "'{0}%s{x'", "BOOLEAN": "true", "NULL": "null",
     "DATE": "2020-01-01", "TIME": "12:00:00", "DATETIME": "2020-01-01T10:00:00Z", "DURATION": "duration'P1D'",
-    "GEOGRAPHY": "geography'x'", "GUID": "11111111-2222-3333-4444-555555555555",
+    "GEOGRAPHY": "geography'{}%d'", "GUID": "11111111-2222-3333-4444-555555555555",
     "ADD": " add ", "SUB": " sub ", "MUL": " mul ", "DIV": " div ", "MOD": " mod ", "UMINUS": "-", "AND": " and ", "OR": " or ",
     "NOT": "not ", "EQ": " eq ", "NE": " ne ", "LT": " lt ", "LE": " le ", "GT": " gt ", "GE": " ge ", "IN": " in ",
     "ANY": "any", "ALL": "all", "WS": " ",
@@ -176,6 +177,8 @@ def _outcome(picks: Sequence[Any], full: bool = True) -> tuple:
         if not isinstance(e, exceptions.ODataException):
             return ("foreign", type(e).__name__)
         return ("lib", type(e).__name__)
+    except Exception as e:  # noqa: BLE001 - the foreign exceptions the property forbids (CrossHair's own control flow is BaseException)
+        return ("foreign", type(e).__name__, str(e)[:120])
     if isinstance(r, ast._Node):
         return ("node", gen.decode(r) if full else "")      # the structure, not its repr (CrossHair prints 1-tuples wrongly)
     return ("non-node", type(r).__name__)
@@ -710,10 +713,75 @@ def _calltext_cex(run: Run, itm: Item, r) -> None:
         run.harness_error(oname, itm.family, {"text": text, "outcome": out, "crosshair": r.message}, r.seconds)
 
 
+# ---------------------------------------------------------------- text level: literals with one long repetition
+# every place where a token pattern repeats without an upper limit (digits, fraction digits, string characters, blanks,
+# identifier characters, segments) is stretched to a length from a pool that brackets the limits Python and the standard
+# library know about (int <-> str digit limit 4300, float digits 17 / exponent 308, identifier limit 128, regex repeat
+# limits 255 / 256, datetime microseconds 6; paths and lists stop at 40 members here - the parser's Python steps are slow under the tracer; the long-input
+# replay has the 1000 / 2000 / 32 000 segment cases); the token ACTIONS run on these lexemes - totality for literals beyond the
+# character bound of the lexer layer.
+LONG_LENGTHS = (1, 6, 7, 18, 19, 20, 127, 128, 129, 255, 256, 309, 4300, 4301, 6000)
+LONG_LITS = (
+    ("integer", lambda n: "1" * n), ("integer-plus", lambda n: "+" + "1" * n), ("integer-minus", lambda n: "-" + "1" * n),
+    ("integer-leading-zeros", lambda n: "0" * n + "1"), ("integer-plus-zero", lambda n: "+0" + "1" * n),
+    ("decimal-fraction", lambda n: "1." + "3" * n), ("decimal-integer-part", lambda n: "+" + "9" * n + ".5"),
+    ("exponent", lambda n: "1e" + "9" * n), ("exponent-negative", lambda n: "-1.5E-" + "9" * n),
+    ("duration-days", lambda n: "duration'P" + "1" * n + "D'"), ("duration-fraction", lambda n: "duration'-PT0." + "1" * n + "S'"),
+    ("datetime-fraction", lambda n: "2020-01-01T10:00:00." + "1" * n + "Z"), ("time-fraction", lambda n: "10:00:00." + "1" * n),
+    ("string", lambda n: "'" + "a" * n + "'"), ("string-quotes", lambda n: "'" + "''" * n + "'"),
+    ("geography", lambda n: "geography'" + "1" * n + "'"),
+    ("identifier", lambda n: "a" * n), ("identifier-segments", lambda n: "a" + ".b" * n), ("identifier-two-segments", lambda n: "a" * n + "." + "b" * n),
+    ("path", lambda n: "a" + "/b" * min(n, 12)), ("blanks-required", lambda n: "a eq" + " " * n + "1"),
+    ("blanks-optional", lambda n: "a in (" + " " * n + "1," + "\t" * n + "2 )"), ("list-items", lambda n: "a in (" + "1, " * min(n, 40) + "2)"),
+)
+LONG_CTX = ("{}", "x eq {}", "f.g({}) ne null")
+
+
+def longlit(i: int, j: int, c: int) -> bool:
+    mk = LONG_LITS[i][1]
+    n = None
+    for k in range(len(LONG_LENGTHS)):
+        if j == k:
+            n = LONG_LENGTHS[k]
+    ctx = None
+    for k in range(len(LONG_CTX)):
+        if c == k:
+            ctx = LONG_CTX[k]
+    if n is None or ctx is None:
+        return True
+    text = ctx.format(mk(n))
+    a = text_outcome(text)
+    return a.startswith(("node", "library exception")) and text_outcome(text) == a
+
+
+def longlit_items() -> List[Item]:
+    items = []
+    for i, (name, _mk) in enumerate(LONG_LITS):
+        items.append(Item(f"longlit_{i}", "x1: int, x2: int", f"0 <= x1 < {len(LONG_LENGTHS)} and 0 <= x2 < {len(LONG_CTX)}",
+                          f"longlit({i}, x1, x2)", family="long-literals",
+                          describe=f"parse of `{name}` with its repetition stretched to {LONG_LENGTHS} characters is a node or a library "
+                                   f"exception, twice the same, in the contexts {LONG_CTX}"))
+    return items
+
+
+def _longlit_cex(run: Run, itm: Item, r) -> None:
+    i = int(itm.name.rsplit("_", 1)[1])
+    j, c = r.args
+    text = LONG_CTX[c].format(LONG_LITS[i][1](LONG_LENGTHS[j]))
+    out = text_outcome(text)
+    oname = f"{itm.name}:{itm.describe[:120]}"
+    wit = {"generator": LONG_LITS[i][0], "repeat": LONG_LENGTHS[j], "context": LONG_CTX[c], "length": len(text), "text_head": text[:60],
+           "outcome": out, "args": [i, j, c], "how_to_replay": "ODataParser().parse(ODataLexer().tokenize(text))"}
+    if out.startswith(("FOREIGN", "NON-NODE")) or text_outcome(text) != out:
+        run.violation(oname, wit, f"parse of {LONG_LITS[i][0]} with a repetition of {LONG_LENGTHS[j]} in {LONG_CTX[c]!r}: {out}", itm.family, r.seconds)
+    else:
+        run.harness_error(oname, itm.family, {**wit, "crosshair": r.message}, r.seconds)
+
+
 # ====================================================================================================
 # running CrossHair conditions with custom counterexample handling
 # ====================================================================================================
-HEADER = "from verif.props.c10 import act, drive, drive2, calltext\n"
+HEADER = "from verif.props.c10 import act, drive, drive2, calltext, longlit\n"
 
 
 def analyse(run: Run, items: Sequence[Item], timeout: float, on_cex: Dict[str, Callable], workers: Optional[int], progress: bool) -> None:
@@ -750,6 +818,9 @@ def parser_layers(run: Run, progress: bool, workers: Optional[int]) -> None:
         run.harness_error(f"alphabet:{k}", "driver", f"no canonical lexeme for token kind {k!r}: the driver alphabet is incomplete")
     classes = lr_classes()
     run.extra["lr_equivalent_terminals"] = [c for c in classes if len(c) > 1]
+    # the representative of a class is the member with the nastiest token value: free-text kinds first (their canonical
+    # lexemes carry format metacharacters), so that error paths see them
+    classes = [sorted(c, key=lambda t: (t not in ("STRING", "GEOGRAPHY"), t)) for c in classes]
     dropped = {t for c in classes for t in c[1:]}
     TABLES[0] = list(range(END + 1))
     TABLES[1] = [i for i, k in enumerate(KINDS) if k not in dropped] + [END]
@@ -760,10 +831,12 @@ def parser_layers(run: Run, progress: bool, workers: Optional[int]) -> None:
     d_items = driver_items(tier)
     a_items = action_items(run, tier)
     # expensive conditions first
-    items = d_items + a_items + calltext_items()
+    items = d_items + a_items + calltext_items() + longlit_items()
+    run.bounds["long_literals"] = {"generators": [k for k, _ in LONG_LITS], "repetition lengths": list(LONG_LENGTHS), "contexts": list(LONG_CTX)}
     run.bounds["function_name_pool"] = list(FUNC_NAMES)
     analyse(run, items, 100 if tier == "quick" else 600,
-            {"driver": _driver_cex, "driver-determinism": _driver_cex, "grammar-action": _action_cex, "call-text": _calltext_cex},
+            {"driver": _driver_cex, "driver-determinism": _driver_cex, "grammar-action": _action_cex, "call-text": _calltext_cex,
+             "long-literals": _longlit_cex},
             workers, progress)
 
 
